@@ -6,6 +6,7 @@ Side condition (pure, sampled): each shape's contains_point and exported geometr
 Oracle: brute-force scan over the current lanelets' raw vertices by crkit.geom (three-valued).
 """
 import copy
+import math
 import os
 import pickle
 import shutil
@@ -126,6 +127,11 @@ class Run(RunBase):
                 self.probe("point-inside")
             if sum(1 for v in truth.values() if v is True) >= 2:
                 self.probe("point-in-two-lanelets")
+                inside = [i for i, v in truth.items() if v is True]
+                if any(np.array_equal(self.present[a]["left"], self.present[b]["left"]) and
+                       np.array_equal(self.present[a]["right"], self.present[b]["right"])
+                       for a in inside for b in inside if a < b):
+                    self.probe("coincident-lanelets")
         arr = np.array([[float(p[0]), float(p[1])] for p in points])
         for la in self.net.lanelets:
             poly, ring = polys[la.lanelet_id]
@@ -137,8 +143,8 @@ class Run(RunBase):
                                     f"lanelet {la.lanelet_id}.contains_points({list(map(float, p))}) = {bool(g)}, "
                                     f"geometric truth {t}")
 
-    def _check_shape(self, shape_spec, polys):
-        shape = build.build_shape(shape_spec)
+    def _check_shape(self, shape_spec, polys, shape=None):
+        shape = build.build_shape(shape_spec) if shape is None else shape
         raw = geom.raw_shape(shape)
         self._check_shape_semantics(shape, raw)
         if raw["t"] == "group" or (self.route == "empty" and not self.present):
@@ -433,8 +439,28 @@ class Run(RunBase):
     def _op_q_shape(self, op):
         self._check_members()
         pos = self._point(op)
-        spec = gen._place(op["shape"], [float(pos[0]), float(pos[1])], op.get("ori", 0.0))
-        self._check_shape(spec, self._polys())
+        via = op.get("via")
+        if via is None:
+            spec = gen._place(op["shape"], [float(pos[0]), float(pos[1])], op.get("ori", 0.0))
+            self._check_shape(spec, self._polys())
+            return "ok"
+        # the query shape is itself the result of a transformation of another shape (as occupancies are)
+        a = op.get("ori", 0.0)
+        try:
+            if via == "rotate_translate_local":
+                base = build.build_shape(op["shape"])
+                shape = base.rotate_translate_local(np.array([float(pos[0]), float(pos[1])]), a)
+            else:
+                t = np.array(op.get("d", [3.0, -2.0]), dtype=float)
+                c, sn = math.cos(-a), math.sin(-a)
+                q0 = [c * pos[0] - sn * pos[1] - t[0], sn * pos[0] + c * pos[1] - t[1]]
+                base = build.build_shape(gen._place(op["shape"], [float(q0[0]), float(q0[1])], op.get("ori0", 0.0)))
+                shape = base.translate_rotate(t, a)
+        except Exception as e:  # noqa
+            raise Violation(f"C06/shape-transform-raised[{op['shape']['t']}]",
+                            f"{via} of a {op['shape']['t']} raised {type(e).__name__}: {e}")
+        self.probe("shape-query-via-" + via)
+        self._check_shape(None, self._polys(), shape=shape)
         return "ok"
 
 
@@ -495,7 +521,9 @@ def _querier(rng, run, cfg):
             yield {"op": "q_shape", "lanelet": rng.pick(ids), "seg": rng.randrange(4), "t": rng.uniform(0.0, 1.0),
                    "off": rng.uniform(-2.5, 2.5),
                    "shape": gen.gen_shape(rng, cfg["shape_kinds"], scale=rng.choice([0.3, 1.0, 1.0, 3.0, 8.0])),
-                   "ori": rng.uniform(-3.1, 3.1)}
+                   "ori": rng.uniform(-3.1, 3.1),
+                   "via": rng.choice([None, None, "translate_rotate", "rotate_translate_local"]),
+                   "d": [rng.uniform(-40, 40), rng.uniform(-40, 40)], "ori0": rng.uniform(-3.1, 3.1)}
         else:
             yield {"op": "panel"}
 
@@ -518,7 +546,8 @@ class C06(Property):
                        "restart-deepcopy", "restart-pickle", "restart-xml", "restart-pb", "restart-xml_net",
                        "restart-deepcopy_net", "restart-pickle_net", "point-inside", "point-in-two-lanelets",
                        "shape-query-rect", "shape-query-circ", "shape-query-poly", "shape-meets-several-lanelets",
-                       "obstacle-mapping-checked"]
+                       "obstacle-mapping-checked", "shape-query-via-translate_rotate",
+                       "shape-query-via-rotate_translate_local", "coincident-lanelets"]
     assumptions = [
         "geometric truth comes from crkit.geom (raw vertices / parameters, shapely predicates on geometry built there) "
         "with a don't-care band: clearance or penetration below 1e-7, and for circles distances in [0.99 r, r] "
@@ -542,6 +571,13 @@ class C06(Property):
         lanelets = {}
         for j, la in enumerate(net["lanelets"]):
             lanelets[f"l{j}"] = la
+        if rng.chance(0.25):
+            # two lanelets with different ids and coincident geometry (legal: overlapping lanelets)
+            src = rng.pick(net["lanelets"])
+            twin = {"id": ids.take(), "left": src["left"], "center": src["center"], "right": src["right"],
+                    "pred": [], "succ": []}
+            net["lanelets"].append(twin)
+            lanelets[f"l{len(lanelets)}"] = twin
         obstacles = []
         for _ in range(rng.randint(0, 4)):
             role = rng.weighted(["static", "dynamic", "dynamic_nopred"], [3, 2, 1])
@@ -593,6 +629,8 @@ class C06(Property):
                 yield dict(op, pts=op["pts"][:i] + op["pts"][i + 1:])
         if op["op"] == "restart" and op["how"] != "deepcopy":
             yield dict(op, how="deepcopy")
+        if op["op"] == "q_shape" and op.get("via"):
+            yield dict(op, via=None)
         if op["op"] == "q_shape" and op["shape"]["t"] == "group" and len(op["shape"]["shapes"]) > 1:
             for s in op["shape"]["shapes"]:
                 yield dict(op, shape=s)
